@@ -13,7 +13,7 @@ from .rng import Rng
 # ^(is|to|str|mem|wcs)[a-z], typedefs ^(atomic_|memory_)[a-z] / ^u?int.*_t, macros ^E[A-Z0-9]+ / ^SIG_?[A-Z] - so that
 # stropping "as a path", "as a type" and "as anything" give different answers)
 ROOT_NAMES = ["alpha", "bravo", "vendor", "zz9", "regs", "str", "register", "my_ns", "Cap", "tools", "memory_map"]
-NS_NAMES = ["sub", "deep", "x", "y2", "node", "class", "def", "if", "while", "long", "io", "detail", "Mixed", "stream", "torque", "isolated", "atomic_ops", "mtx_util", "uint_fast_t", "EVENTS", "SIGNALS"]
+NS_NAMES = ["sub", "deep", "x", "y2", "node", "nav", "navigation", "iffy", "class", "def", "if", "while", "long", "io", "detail", "Mixed", "stream", "torque", "isolated", "atomic_ops", "mtx_util", "uint_fast_t", "EVENTS", "SIGNALS"]
 TYPE_NAMES = [
     "Foo", "Bar", "Baz", "Quux", "Status", "Node", "Heartbeat", "Point", "List", "Record", "Integer", "Any", "Union",
     "Str", "NULL", "None", "Object", "Class", "A", "B2", "lower", "With_Underscore", "XMLHttp", "Real", "Double",
